@@ -94,9 +94,22 @@ class Tr:
             if lt == 'arr' and rt == 'int' and isinstance(node.op, ast.Div):      # np.ones(p) / p
                 return ('(map (fun x => x / natq %s) %s)' % (r, l), 'arr')
             fail(node, 'unsupported array operator')
+        if isinstance(node, ast.Subscript) and isinstance(node.value, ast.Call) and self.is_np(node.value.func, 'where'):
+            w = node.value
+            if self.int_const(node.slice) == 0 and len(w.args) == 1 and not w.keywords and isinstance(w.args[0], ast.Compare) \
+                    and len(w.args[0].ops) == 1 and isinstance(w.args[0].ops[0], ast.NotEq):
+                (x, xt), (y, yt) = self.expr(w.args[0].left), self.expr(w.args[0].comparators[0])
+                if (xt, yt) == ('iarr', 'iarr'):
+                    return ('(np_where_ne %s %s)' % (x, y), 'iarr')
+            fail(node, 'unsupported np.where form')
         if isinstance(node, ast.Subscript):
             v, vt = self.expr(node.value)
             s = node.slice
+            if vt == 'iarr' and not isinstance(s, ast.Slice) and self.int_const(s) is None:
+                ix, it = self.expr(s)
+                if it == 'parr':
+                    return ('(np_take2 %s %s)' % (v, ix), 'parr')
+                fail(node, 'unsupported integer-array index')
             if vt in ('arr', 'iarr') and isinstance(s, ast.Slice) and s.step is None:
                 lo = None if s.lower is None else self.slice_bound(s.lower)
                 hi = None if s.upper is None else self.slice_bound(s.upper)
@@ -118,8 +131,21 @@ class Tr:
             if vt == 'arr' and self.int_const(s) in (0, -1) and Q:
                 return ('(kn %s %s)' % (v, '0' if self.int_const(s) == 0 else '(length %s - 1)' % v), 'sc')
             fail(node, 'unsupported subscript')
+        if isinstance(node, ast.Call) and self.is_np(node.func, 'stack'):
+            kw = node.keywords
+            if len(node.args) == 1 and isinstance(node.args[0], ast.Tuple) and len(node.args[0].elts) == 2 \
+                    and len(kw) == 1 and kw[0].arg == 'axis' and self.int_const(kw[0].value) == 1:
+                (x, xt), (y, yt) = [self.expr(z) for z in node.args[0].elts]
+                if (xt, yt) == ('iarr', 'iarr'):
+                    return ('(np_stack2 %s %s)' % (x, y), 'parr')
+            fail(node, 'unsupported np.stack form')
         if isinstance(node, ast.Call) and not node.keywords:
             f, a = node.func, node.args
+            if self.is_np(f, 'arange') and len(a) == 2:
+                (x, xt), (y, yt) = [self.expr(z) for z in a]
+                if (xt, yt) != ('int', 'int'):
+                    fail(node, 'arange(int, int) operands')
+                return ('(np_arange_nat %s %s)' % (x, y), 'iarr')
             if self.is_np(f, 'concatenate') and len(a) == 1 and isinstance(a[0], ast.Tuple):
                 parts = [self.expr(x) for x in a[0].elts]
                 if any(t != 'arr' for _, t in parts):
@@ -197,6 +223,10 @@ class Tr:
         Returns the Gallina term of the returned expression (or of ret_name)."""
         stmts = [s for s in stmts if not (isinstance(s, ast.Expr) and isinstance(s.value, ast.Constant))]
         for i, s in enumerate(stmts):
+            if isinstance(s, ast.Expr) and isinstance(s.value, ast.Call) and not s.value.args and not s.value.keywords \
+                    and isinstance(s.value.func, ast.Attribute) and s.value.func.attr == '_ensure_mesh' \
+                    and getattr(s.value.func.value, 'id', None) == 'self':
+                continue      # fills the caches read below as self._mesh / self._knots_to_mesh
             if isinstance(s, ast.Assign) and len(s.targets) == 1 and isinstance(s.targets[0], ast.Name):
                 self.env[s.targets[0].id] = self.expr(s.value)
             elif isinstance(s, ast.Return) and s.value is not None:
@@ -285,6 +315,23 @@ def translate(repo):
     out.append('Definition gen_refine_uniform (kv : list Qc) : list Qc :=\n  %s.\n' % t2[0])
     out.append('Goal forall kv, gen_refine_uniform kv = refine_uniform kv.\nProof. reflexivity. Qed.\n')
     names += ['KnotVector.refine(new_knots)', 'KnotVector.refine()']
+
+    # ---- KnotVector.mesh_support_idx_all / mesh_span_indices ----
+    env = {'self.p': ('p', 'int'), 'self.numdofs': ('(numdofs kv p)', 'int'),
+           'self._knots_to_mesh': ('(knots_to_mesh kv)', 'iarr')}
+    fn = find_function(bs, 'mesh_support_idx_all', 'KnotVector')
+    t = Tr('Q', env).block(fn.body)
+    if t is None or t[1] != 'parr':
+        fail(fn, 'mesh_support_idx_all does not return an N x 2 index array')
+    out.append('Definition gen_mesh_support_idx_all (kv : list Qc) (p : nat) : list (nat * nat) :=\n  %s.\n' % t[0])
+    out.append('Goal forall kv p, gen_mesh_support_idx_all kv p = mesh_support_idx_all kv p.\nProof. reflexivity. Qed.\n')
+    fn = find_function(bs, 'mesh_span_indices', 'KnotVector')
+    t = Tr('Q', env).block(fn.body)
+    if t is None or t[1] != 'iarr':
+        fail(fn, 'mesh_span_indices does not return an index array')
+    out.append('Definition gen_mesh_span_indices (kv : list Qc) : list nat :=\n  %s.\n' % t[0])
+    out.append('Goal forall kv, gen_mesh_span_indices kv = mesh_span_indices kv.\nProof. reflexivity. Qed.\n')
+    names += ['KnotVector.mesh_support_idx_all', 'KnotVector.mesh_span_indices']
 
     # ---- Spline.derivative: p = ...; diffcoeffs = ...; diffkv = KnotVector(self.kv.kv[1:-1], p-1) ----
     fn = find_function(sp, 'derivative', 'Spline')
